@@ -20,6 +20,36 @@ V = os.path.dirname(os.path.dirname(os.path.abspath(__file__)))
 REPO = "/repo"
 
 
+def run_checks(props, repo, evdir):
+    """run several property checks in ONE process (facts loaded once); -> {prop: (failing, fatal)}"""
+    env = dict(os.environ)
+    env["RAFTLINT_REPO"] = repo
+    env["RAFTLINT_EVIDENCE_DIR"] = evdir
+    for p in props:
+        for f in (os.path.join(evdir, "%s.json" % p),):
+            if os.path.exists(f):
+                os.remove(f)
+    r = subprocess.run([os.path.join(V, "check"), ",".join(props) + ",", "--tier", "quick"], cwd=V, env=env, stdout=subprocess.PIPE, stderr=subprocess.STDOUT, text=True)
+    out = {}
+    for p in props:
+        ev = os.path.join(evdir, "%s.json" % p)
+        failing = set()
+        fatal = None
+        if os.path.exists(ev):
+            j = json.load(open(ev))
+            for s in j["coverage"]["samples"]:
+                if s["verdict"] != "holds":
+                    failing.add((s["rule"], s["site"]))
+            if j.get("violations") and any(x.get("rule") == "driver" for x in j["coverage"]["samples"]):
+                fatal = r.stdout[-2000:]
+        else:
+            fatal = r.stdout[-2000:]
+        if "does not compile" in r.stdout:
+            fatal = r.stdout[-2000:]
+        out[p] = (failing, fatal)
+    return out
+
+
 def run_check(prop, repo, evdir):
     env = dict(os.environ)
     env["RAFTLINT_REPO"] = repo
